@@ -129,6 +129,51 @@ fn collisions(ctx: &Ctx) -> usize {
   sink.total
 }
 
+/// every label (valid or not: months -12..13) of a window of consecutive years, twice, in seeded random order, in ONE
+/// warm process: whatever the memo key is, two labels that share it meet here
+fn pools(ctx: &Ctx) -> usize {
+  let mut sink = ctx.sink("Trace_C10", "pool");
+  let mut hsink = ctx.sink("Trace_C10", "poolce");
+  let mut rng = ctx.rng(7500);
+  let mut starts: Vec<i64> = vec![0, 5, 95, 995, 1570, 2015, 3350, 9960, 9985];
+  let extra = if ctx.quick() { 6 } else { 120 };
+  for _ in 0..extra {
+    starts.push(rng.range(1, 9970));
+  }
+  let mut hid = 2_000_000i64;
+  for y0 in starts {
+    let span = 14;
+    let mut reqs: Vec<(i64, i64)> = Vec::new();
+    for rep in 0..2 {
+      for y in y0..(y0 + span) {
+        for m in -12..=13i64 {
+          let _ = rep;
+          reqs.push((y, m));
+        }
+      }
+    }
+    // Fisher-Yates with the seeded generator
+    for i in (1..reqs.len()).rev() {
+      let j = rng.range(0, i as i64) as usize;
+      reqs.swap(i, j);
+    }
+    hid += 1;
+    cache_reset();
+    hooks::install();
+    sink.segment();
+    for (i, (y, m)) in reqs.iter().enumerate() {
+      let (ok, r) = from_ym5(*y, *m);
+      let pois = hooks::cache_poisoned();
+      let (cok, c) = cold5(*y, *m);
+      sink.put(Ev::new("h").b("s", i == 0).i("hid", hid).i("i", i as i64).i("y", *y).i("m", *m).i("exp", cok as i64).b("ok", ok).a("r", &r).b("cok", cok).a("c", &c).b("pois", pois).i("nk", -2).done());
+    }
+    hsink.segment();
+    dump_hooks(&mut hsink, true);
+  }
+  cache_reset();
+  sink.total + hsink.total
+}
+
 /// 16 OS threads issuing overlapping requests (valid, colliding and invalid), hook events in lock order
 fn threads(ctx: &Ctx) -> usize {
   let mut sink = ctx.sink("Trace_C10", "thr");
@@ -358,7 +403,7 @@ fn lazy(ctx: &Ctx) -> usize {
 }
 
 pub fn run(ctx: &Ctx) -> usize {
-  histories(ctx) + collisions(ctx) + threads(ctx) + mixed(ctx) + lazy(ctx)
+  histories(ctx) + collisions(ctx) + pools(ctx) + threads(ctx) + mixed(ctx) + lazy(ctx)
 }
 
 /// `tvh ask fam a1 a2 ...` — one query in a fresh process
